@@ -248,6 +248,76 @@ func c20R2(c *Ctx) {
 		return
 	}
 	info := fn.Info()
+	// the locals the rule speaks about are found by what they are, not by what they are called:
+	//   support  — the bool whose one definition reads the feature record's EBPF field
+	//   typeVar  — the tag of the switch that has a case for the constant "cilium-cni" (ciliumC)
+	//   dpTag    — the tag of the switch over the declared datapath constants
+	//   require  — the bool assigned in that switch's cases
+	//   exist    — the other bool set to true in the cilium case of the plugin-type switch
+	dpNames := map[string]string{"dataPathVeth": "false", "dataPathIPvlan": "true", "dataPathV2": "true"}
+	var support, typeVar, require, exist types.Object
+	var dpSwitch, typeSwitch *ast.SwitchStmt
+	var ciliumCase *ast.CaseClause
+	ciliumC := ""
+	ast.Inspect(fn.Decl.Body, func(nd ast.Node) bool {
+		switch t := nd.(type) {
+		case *ast.AssignStmt:
+			if t.Tok == token.DEFINE && len(t.Lhs) == 1 && len(t.Rhs) == 1 {
+				if sel, ok := ast.Unparen(t.Rhs[0]).(*ast.SelectorExpr); ok && sel.Sel.Name == "EBPF" {
+					if o := identObj(info, t.Lhs[0]); o != nil && len(varDefs(fn, o)) == 1 {
+						support = o
+					}
+				}
+			}
+		case *ast.SwitchStmt:
+			if t.Tag == nil {
+				return true
+			}
+			for _, cl := range t.Body.List {
+				cc := cl.(*ast.CaseClause)
+				for _, x := range cc.List {
+					if tv := info.Types[x]; tv.Value != nil && tv.Value.Kind() == constant.String && constant.StringVal(tv.Value) == "cilium-cni" && identObj(info, t.Tag) != nil && typeSwitch == nil {
+						typeSwitch, typeVar, ciliumCase, ciliumC = t, identObj(info, t.Tag), cc, exprString(x)
+					}
+					if o := identObjSel(info, x); o != nil && dpNames[o.Name()] != "" && identObj(info, t.Tag) != nil {
+						dpSwitch = t
+					}
+				}
+			}
+		}
+		return true
+	})
+	if dpSwitch != nil {
+		for _, cl := range dpSwitch.Body.List {
+			for _, st := range cl.(*ast.CaseClause).Body {
+				if as, ok := st.(*ast.AssignStmt); ok && len(as.Lhs) == 1 && len(as.Rhs) == 1 && info.Types[as.Rhs[0]].Value != nil {
+					if o := identObj(info, as.Lhs[0]); o != nil && types.Identical(o.Type().Underlying(), types.Typ[types.Bool]) {
+						if require != nil && require != o {
+							require = nil
+							break
+						}
+						require = o
+					}
+				}
+			}
+		}
+	}
+	if ciliumCase != nil {
+		for _, st := range ciliumCase.Body {
+			if as, ok := st.(*ast.AssignStmt); ok && len(as.Lhs) == 1 && len(as.Rhs) == 1 {
+				if tv := info.Types[as.Rhs[0]]; tv.Value != nil && tv.Value.Kind() == constant.Bool && constant.BoolVal(tv.Value) {
+					if o := identObj(info, as.Lhs[0]); o != nil && o != require && o != support {
+						exist = o
+					}
+				}
+			}
+		}
+	}
+	if support == nil || typeVar == nil || require == nil || exist == nil {
+		c.Undec("C20.R2", "roles of mergeConfigList's locals", p.Pos(fn.Decl), fn.Key(), "eBPF support flag, plugin-type switch, datapath switch, chainer-required flag, chainer-present flag", fmt.Sprintf("support=%v type=%v required=%v present=%v", support != nil, typeVar != nil, require != nil, exist != nil))
+		return
+	}
+	sup, req, exi := support.Name(), require.Name(), exist.Name()
 	// Set(value, key) calls on gabs containers
 	type setCall struct {
 		call *ast.CallExpr
@@ -314,14 +384,14 @@ func c20R2(c *Ctx) {
 		if len(loops) == 1 && identObj(info, loops[0].X) == param && loops[0].Value != nil {
 			// the concatenated value derives from the loop's element
 			okOrder = true
-			c.Require("C20.R2", "a cilium plugin from the input is kept only under kernel eBPF support", fn, concat[0], "pluginType != pluginTypeCilium || ebpfSupport", nil)
+			c.Require("C20.R2", "a cilium plugin from the input is kept only under kernel eBPF support", fn, concat[0], typeVar.Name()+" != "+ciliumC+" || "+sup, nil)
 		}
 	}
 	c.Check(okOrder, "C20.R2", "input plugin order is preserved", p.Pos(fn.Decl), fn.Key(), "one ArrayConcat inside `for _, config := range configs`", fmt.Sprintf("%d concat sites", len(concat)))
 	// chainer append
 	c.Floor("C20.R2", "chainer append sites", 1, len(appends))
 	for _, a := range appends {
-		c.Require("C20.R2", "chainer appended only with eBPF support, when required and not already present", fn, a, "ebpfSupport && requireEBPFChainer && !ebpfChainerExist", nil)
+		c.Require("C20.R2", "chainer appended only with eBPF support, when required and not already present", fn, a, sup+" && "+req+" && !"+exi, nil)
 		// it is a cilium-cni plugin
 		isCilium := false
 		ast.Inspect(a.Args[0], func(k ast.Node) bool {
@@ -339,24 +409,18 @@ func c20R2(c *Ctx) {
 		for _, nd := range pathTo(fn.Decl.Body, a) {
 			if is, ok := nd.(*ast.IfStmt); ok {
 				e := NewFactEngine(p, fn)
-				want, err := e.ParseReq("ebpfSupport && requireEBPFChainer && !ebpfChainerExist", is.Pos())
+				want, err := e.ParseReq(sup+" && "+req+" && !"+exi, is.Pos())
 				c.Check(err == nil && equivalent(e, e.Cond(is.Cond), want), "C20.R2", "chainer appended exactly when required", p.Pos(is), fn.Key(), "if ebpfSupport && requireEBPFChainer && !ebpfChainerExist", exprString(is.Cond))
 			}
 		}
 	}
 	// datapath switch: each declared datapath constant has a case that assigns requireEBPFChainer
-	var sw *ast.SwitchStmt
-	ast.Inspect(fn.Decl.Body, func(nd ast.Node) bool {
-		if s, ok := nd.(*ast.SwitchStmt); ok && s.Tag != nil && exprString(s.Tag) == "datapath" {
-			sw = s
-		}
-		return true
-	})
+	sw := dpSwitch
 	if sw == nil {
 		c.Bad("C20.R2", "datapath switch", p.Pos(fn.Decl), fn.Key(), "switch datapath { case veth / ipvlan / datapathv2 / default: error }", "not found")
 		return
 	}
-	want := map[string]string{"dataPathVeth": "false", "dataPathIPvlan": "true", "dataPathV2": "true"}
+	want := dpNames
 	seen := map[string]bool{}
 	hasDefaultErr := false
 	for _, cl := range sw.Body.List {
@@ -378,7 +442,7 @@ func c20R2(c *Ctx) {
 			val := ""
 			setsType := ""
 			for _, s := range cc.Body {
-				if as, ok := s.(*ast.AssignStmt); ok && len(as.Lhs) == 1 && exprString(as.Lhs[0]) == "requireEBPFChainer" {
+				if as, ok := s.(*ast.AssignStmt); ok && len(as.Lhs) == 1 && identObj(info, as.Lhs[0]) == require {
 					val = exprString(as.Rhs[0])
 				}
 				ast.Inspect(s, func(k ast.Node) bool {
@@ -508,7 +572,7 @@ func c20R2(c *Ctx) {
 	if del == nil {
 		c.Bad("C20.R2", "without eBPF support no eBPF datapath is configured", p.Pos(fn.Decl), fn.Key(), "plugin.Delete(\"eniip_virtual_type\") under !ebpfSupport", "no Delete of the key")
 	} else {
-		c.Require("C20.R2", "the virtual type is removed only without eBPF support", fn, del, "!ebpfSupport", nil)
+		c.Require("C20.R2", "the virtual type is removed only without eBPF support", fn, del, "!"+sup, nil)
 		var scope *ast.BlockStmt
 		for _, nd := range pathTo(fn.Decl.Body, sw) {
 			if nd.Pos() > del.Pos() || del.End() > nd.End() {
@@ -524,13 +588,13 @@ func c20R2(c *Ctx) {
 		if scope == nil {
 			c.Undec("C20.R2", "without eBPF support no eBPF datapath is configured", p.Pos(del), fn.Key(), "the Delete and the datapath switch share a block", "no common block")
 		} else {
-			c.RequireReached("C20.R2", "without eBPF support no eBPF datapath is configured", fn, scope, del, "!ebpfSupport", nil)
+			c.RequireReached("C20.R2", "without eBPF support no eBPF datapath is configured", fn, scope, del, "!"+sup, nil)
 		}
 	}
 	// every Set of a virtual type happens under ebpfSupport
 	for _, s := range sets {
 		if s.key == "eniip_virtual_type" || s.key == "bandwidth_mode" {
-			c.Require("C20.R2", s.key+" written only with eBPF support", fn, s.call, "ebpfSupport", nil)
+			c.Require("C20.R2", s.key+" written only with eBPF support", fn, s.call, sup, nil)
 		}
 	}
 }
